@@ -3,7 +3,7 @@
    every decomposition layout; congruences are coefficient-wise modulo 2^32 (eqNm). *)
 From Coq Require Import ZArith List Lia.
 From TV Require Import Base.Int32 Ring.NegaRing Model.Lwe Model.Poly Model.Tlwe Model.Decomp Model.Tgsw Model.Bootstrap
-  Proofs.Tlwe Proofs.Decomp Proofs.Tgsw Proofs.Gadget Proofs.BlindRotate Proofs.BootKey.
+  Proofs.Tlwe Proofs.Decomp Proofs.Tgsw Proofs.Gadget Proofs.BlindRotate Proofs.BootKey Proofs.ExtprodPoly.
 Import ListNotations.
 Local Open Scope Z_scope.
 
@@ -45,6 +45,27 @@ Theorem C09_extprod_error_bound : forall N, (0 < N)%nat -> forall key k, wf_tkey
   acts_like N key k l B (add_muint_h l B s Z0) s (Eg N key k l B s e) (beta N k l B eta).
 Proof. exact gadget_sample_acts_like. Qed.
 Print Assumptions C09_extprod_error_bound.
+
+(* the same for a *polynomial* message mu (tGswAddMuH on top of encryptions of zero: what tGswSymEncrypt and tGswNoiselessTrivial
+   build): the phase is multiplied by mu in the ring *)
+Theorem C09_extprod_multiplies_polynomial_message : forall N, (0 < N)%nat -> forall key k, wf_tkey N k key -> forall l B, valid_layout l B ->
+  forall mu, length mu = N -> forall Z0 acc, wf_tsample N k acc -> Forall (wf_tsample N k) Z0 -> length Z0 = (S k * l)%nat ->
+  eqNm N (PHv N key (extprod l B (add_mu_h l B mu Z0) acc))
+         (vadd (act N mu (vsub (PHv N key acc) (PHv N key (err_sample l B acc)))) (rows_sum N (PHv N key) (tlwe_decomp l B acc) Z0)).
+Proof. exact extprod_message_poly. Qed.
+Print Assumptions C09_extprod_multiplies_polynomial_message.
+
+(* worst-case error for a polynomial message: row noises at most eta, binary ring key:
+   (k+1) l N (Bg/2) eta  +  |mu|_1 (1 + k N) 2^(32 - l Bgbit) *)
+Theorem C09_extprod_polynomial_error_bound : forall N, (0 < N)%nat -> forall key k, wf_tkey N k key -> Forall (Forall (fun x => x = 0 \/ x = 1)) key ->
+  forall l B, valid_layout l B -> forall mu, length mu = N -> forall Z0, Forall (wf_tsample N k) Z0 -> length Z0 = (S k * l)%nat ->
+  forall (e : nat -> vec) eta, (forall p, (p < S k * l)%nat -> eqNm N (PHv N key (nth p Z0 [])) (e p)) ->
+  (forall p j, (p < S k * l)%nat -> (j < N)%nat -> Z.abs (e p j) <= eta) -> 0 <= eta ->
+  forall t, wf_tsample N k t ->
+  eqNm N (PHv N key (extprod l B (add_mu_h l B mu Z0) t)) (vadd (act N mu (PHv N key t)) (Ep N key k l B mu e t)) /\
+  (forall j, (j < N)%nat -> Z.abs (Ep N key k l B mu e t j) <= beta_poly N k l B mu eta).
+Proof. exact extprod_poly_error_bound. Qed.
+Print Assumptions C09_extprod_polynomial_error_bound.
 
 (* one CMux step *)
 Theorem C09_cmux_phase : forall N, (0 < N)%nat -> forall key k, wf_tkey N k key -> forall l B g s E beta a acc,
